@@ -310,6 +310,9 @@ func simplify(op string, sort *Sort, a []*Term) *Term {
 			if a[0].Op == "strlit" && a[1].Op == "strlit" {
 				return BoolLit(a[0].Name == a[1].Name)
 			}
+			if a[0].Op == "bvlit" && a[1].Op == "bvlit" {
+				return BoolLit(a[0].Int.Cmp(a[1].Int) == 0)
+			}
 		}
 		return nil
 	case "distinct":
@@ -427,6 +430,13 @@ func simplify(op string, sort *Sort, a []*Term) *Term {
 			if a[1].IsFalse() && a[2].IsTrue() {
 				return App("not", SBool, a[0])
 			}
+		}
+		return nil
+	case "concat":
+		if len(a) == 2 && a[0].Op == "bvlit" && a[1].Op == "bvlit" {
+			v := new(big.Int).Lsh(a[0].Int, uint(a[1].Sort.W))
+			v.Or(v, a[1].Int)
+			return BVLit(v, a[0].Sort.W+a[1].Sort.W)
 		}
 		return nil
 	case "select":
@@ -885,4 +895,31 @@ func linScale(c *big.Int, t *Term) *Term {
 	l := &linAcc{coef: map[*Term]*big.Int{}, k: new(big.Int)}
 	l.add(c, t)
 	return l.build()
+}
+
+// isGround: no free variables and no applications of uninterpreted (body-less) functions.
+func isGround(t *Term, lib *SpecLib, cache map[*Term]bool) bool {
+	if r, ok := cache[t]; ok {
+		return r
+	}
+	r := true
+	switch t.Op {
+	case "var", "forall", "exists":
+		r = false
+	case "int", "bool", "bvlit", "strlit":
+	default:
+		if !builtinOps[t.Op] && t.Op != "constarr" && !strings.HasPrefix(t.Op, "(_ ") {
+			r = false
+		}
+		if r {
+			for _, a := range t.Args {
+				if !isGround(a, lib, cache) {
+					r = false
+					break
+				}
+			}
+		}
+	}
+	cache[t] = r
+	return r
 }
